@@ -786,6 +786,15 @@ def _astype(e, st, node, recv, dt, **kw):
         return e.new_obj(st, Arr(a.term, a.shape, a.kind, a.init, a.meta))
     if kind == 'real':
         return e.new_obj(st, e.lam(lambda *ix: e.num(a[tuple(ix)], 'real'), a.shape, 'real'))
+    if kind == 'bool' and a.kind in ('real', 'int'):
+        return e.new_obj(st, e.lam(lambda *ix: a[tuple(ix)] != 0, a.shape, 'bool'))
+    if kind == 'int' and a.kind == 'bool':
+        return e.new_obj(st, e.lam(lambda *ix: z3.If(a[tuple(ix)], z3.IntVal(1), z3.IntVal(0)), a.shape, 'int'))
+    if kind == 'int' and a.kind == 'real':
+        # exact only for integral values: emitted as an obligation (truncation is not modelled)
+        vs = [e.L.var('q') for _ in a.shape]
+        e.emit(e.site('astype-integral', node), st, z3.ForAll(vs, z3.Implies(z3.And(*[c for v, s in zip(vs, a.shape) for c in (v >= 0, v < s)]), z3.IsInt(a[tuple(vs)]))))
+        return e.new_obj(st, e.lam(lambda *ix: z3.ToInt(a[tuple(ix)]), a.shape, 'int'))
     raise Unsupported('astype %s -> %s' % (a.kind, kind))
 
 
